@@ -58,7 +58,7 @@ _COQMON = ["RefCount/ProofsC08.v", "RefCount/ProofsC08b.v", "RefCount/ProofsC09.
            "RefCount/ProofsMon11.v", "RefCount/ProofsMon12.v", "RefCount/ProofsMon13.v", "RefCount/ProofsMon14.v", "RefCount/ProofsMon15.v",
            "RefCount/ProofsMon16.v", "RefCount/ProofsMonThm.v",
            # the full statement (model_satisfies_monitors / model_run_check_clean: all clauses, every configuration)
-           "RefCount/ProofsMon17.v", "RefCount/ProofsMon18.v", "RefCount/ProofsMon19.v", "RefCount/ProofsMon20.v", "RefCount/ProofsMon21.v",
+           "RefCount/ProofsMon17.v", "RefCount/ProofsMonE.v", "RefCount/ProofsMon18.v", "RefCount/ProofsMon19.v", "RefCount/ProofsMon20.v", "RefCount/ProofsMon21.v",
            "RefCount/ProofsMon22.v", "RefCount/ProofsMon23.v", "RefCount/ProofsMonThm2.v"]
 
 PROPS = {
